@@ -64,27 +64,34 @@ inductive Art where
   | file (b : Bytes)
 deriving DecidableEq, Repr, Inhabited
 
+/-- Directory entries `patches/<n>` as an association list without duplicate keys. -/
+abbrev Arts := List (Nat × Art)
+
+/-- Remove the entry for `n` (`remove_dir_all(patches/<n>)`). -/
+def eraseArt (l : Arts) (n : Nat) : Arts := l.filter (fun e => e.1 ≠ n)
+
+/-- Create or replace the entry for `n`. -/
+def setArt (l : Arts) (n : Nat) (a : Art) : Arts := (n, a) :: eraseArt l n
+
 /-- The `patches/` directory when it exists. -/
 structure PatchesDir where
-  arts : Nat → Option Art
+  arts : Arts
   junk : List String          -- entries whose name does not parse as a number
+deriving DecidableEq, Repr, Inhabited
 
 /-- The storage directory. -/
 structure Disk where
   stateJson : JFile SState
   patchesJson : JFile PatchesState
   patches : Option PatchesDir
+deriving DecidableEq, Repr, Inhabited
 
 def Disk.art (d : Disk) (n : Nat) : Option Art :=
   match d.patches with
   | none => none
-  | some p => p.arts n
+  | some p => p.arts.lookup n
 
 def Disk.empty : Disk := { stateJson := .missing, patchesJson := .missing, patches := none }
-
-/-- Functional update of one entry. -/
-def updArts (f : Nat → Option Art) (n : Nat) (a : Option Art) : Nat → Option Art :=
-  fun k => if k = n then a else f k
 
 /-- `UpdateConfig` (config.rs), the parts that matter. Paths are opaque tokens. -/
 structure Config where
